@@ -6,12 +6,49 @@
 //! harness declares `panic_ok` (fail-stop behaviour is what the property demands there).
 #![allow(clippy::all)]
 
-/// Property assertion.
+/// Property assertion.  While the native search checks one property, the assertions whose marker does not concern that
+/// property (`VK_IGNORE` / `VK_ONLY`, longest matching prefix decides — see vf/bounded.py) are not evaluated at all, so
+/// that an assertion belonging to another property cannot end the run before this property's own assertions are reached.
+#[cfg(not(kani))]
+#[macro_export]
+macro_rules! vassert {
+    ($c:expr, $m:literal) => {{
+        // (decided once per assertion site)
+        static IGNORED: std::sync::OnceLock<bool> = std::sync::OnceLock::new();
+        if !*IGNORED.get_or_init(|| $crate::marker_ignored($m)) {
+            assert!($c, $m)
+        }
+    }};
+}
+#[cfg(kani)]
 #[macro_export]
 macro_rules! vassert {
     ($c:expr, $m:literal) => {
         assert!($c, $m)
     };
+}
+
+#[cfg(not(kani))]
+pub fn marker_ignored(m: &str) -> bool {
+    use std::sync::OnceLock;
+    static F: OnceLock<(Vec<String>, Vec<String>)> = OnceLock::new();
+    let (ignore, only) = F.get_or_init(|| {
+        let get = |k: &str| std::env::var(k).unwrap_or_default().split('|').filter(|s| !s.is_empty()).map(|s| s.to_string()).collect::<Vec<_>>();
+        (get("VK_IGNORE"), get("VK_ONLY"))
+    });
+    if ignore.is_empty() {
+        return false;
+    }
+    let ig = ignore.iter().filter(|k| m.starts_with(k.as_str())).map(|k| k.len()).max();
+    let on = only.iter().filter(|k| m.starts_with(k.as_str())).map(|k| k.len()).max();
+    match ig {
+        Some(i) => on.map_or(true, |o| o < i),
+        None => false,
+    }
+}
+#[cfg(kani)]
+pub fn marker_ignored(_m: &str) -> bool {
+    false
 }
 
 /// Harness precondition.
